@@ -190,6 +190,13 @@ func valueText(v interface{}) (string, bool) {
 		return fmt.Sprint(v), true
 	}
 
+	// 列表按 JSON 形式发送（服务端按 JSON 列表解析字符串形式的切片，fmt.Sprint 的 "[1 2]" 无法被解析回来）
+	if kind := rv.Kind(); kind == reflect.Slice || kind == reflect.Array {
+		if bs, err := json.Marshal(rv.Interface()); err == nil {
+			return string(bs), true
+		}
+	}
+
 	return fmt.Sprint(rv.Interface()), true
 }
 
